@@ -252,6 +252,20 @@ func (s *ModSpec) readsMutableGlobalInConstExpr() bool {
 	return false
 }
 
+// elemItemTypeError reports whether an element-segment item reads an imported global whose
+// declared type is not the element type of the segment's table (invalid by the specification).
+func (s *ModSpec) elemItemTypeError() bool {
+	v := s.view()
+	for _, e := range s.Elems {
+		for _, it := range e.Items {
+			if it.K == "gget" && int(it.V) < v.nIG && e.Table < len(v.telem) && v.gt[it.V].vt != v.telem[e.Table] {
+				return true
+			}
+		}
+	}
+	return false
+}
+
 // ---- accessors ----
 
 // accInfo describes one exported accessor function of a module.
